@@ -37,7 +37,7 @@ for p in props:
       "replay_cmd_template": "./check --replay {path}",
       "engine": "gosym",
       "level_claimed": {"category": level[i], "text": text[i], "design_ref": f"DESIGN.md §4 {i}"},
-      "level_note": note if i!='C13' else note+" C13 additionally relies on the lemma that operations without writes to shared memory cannot race; sync primitives are not modelled.",
+      "level_note": note if i!='C13' else note+" C13 additionally relies on the lemma that operations without writes to shared memory cannot race; locks, sync.Once and sync/atomic are modelled as a locking discipline (lockset); what that monitor flags is a violation only if the race-detector build reproduces it, and when the library uses sync a sample of paths is also run under the race detector.",
       "technique": "bounded symbolic execution of go/ssa + SMT (cvc5, z3 cross-check), native replay" if i!='C13' else "symbolic write-set analysis (bounded symbolic execution of go/ssa + SMT) discharging the read-only premise",
     })
 m={
